@@ -37,6 +37,12 @@ Par2d ==
                                                  !.t = V2(I(1), I(-2))],
     [G0("par2d-explicit-irr", "par2d") EXCEPT !.p0 = V2(Q(1, 2), I(-2)), !.ax = <<V2(Q(-12, 13), Q(5, 13))>>,
                                               !.t = V2(Q(-1, 2), I(3))],
+    \* detector through the rotation centre: documented "If det_pos_init == (0, 0), no rotation is performed"
+    [G0("par2d-pos0", "par2d") EXCEPT !.p0 = V2(I(0), I(0)), !.t = V2(I(1), I(-2))],
+    \* the absolute initial position det_pos_init + translation is the origin
+    [G0("par2d-pos-cancels-translation", "par2d") EXCEPT !.p0 = V2(I(-1), I(2)), !.t = V2(I(1), I(-2)),
+                                                        !.ax = <<V2(Q(3, 5), Q(4, 5))>>],
+    [G0("par2d-pos0-explicit", "par2d") EXCEPT !.p0 = V2(I(0), I(0)), !.ax = <<V2(Q(3, 5), Q(4, 5))>>],
     [G0("par2d-matrix-rot", "par2d") EXCEPT !.mat = <<V3(Q(3, 5), Q(-4, 5), I(1)), V3(Q(4, 5), Q(3, 5), I(-2))>>],
     [G0("par2d-matrix-mirror", "par2d") EXCEPT !.mat = <<V2(I(1), I(0)), V2(I(0), I(-1))>>] }
 
@@ -68,6 +74,8 @@ Par3dEu ==
   { G0("par3deu-default", "par3deu"),
     [G0("par3deu-pos212-transl", "par3deu") EXCEPT !.p0 = V3(I(2), I(-1), I(2)), !.t = V3(I(1), I(0), I(-1))],
     [G0("par3deu-explicit", "par3deu") EXCEPT !.p0 = V3(I(1), I(2), I(-6)),
+         !.ax = <<V3(Q(4, 5), QZero, Q(-3, 5)), V3(QZero, QOne, QZero)>>],
+    [G0("par3deu-pos0-explicit", "par3deu") EXCEPT !.p0 = V3(I(0), I(0), I(0)),
          !.ax = <<V3(Q(4, 5), QZero, Q(-3, 5)), V3(QZero, QOne, QZero)>>],
     [G0("par3deu-matrix", "par3deu") EXCEPT
          !.mat = <<<<I(0), I(0), I(-1), I(0)>>, <<I(0), I(1), I(0), I(1)>>, <<I(1), I(0), I(0), I(1)>>>>] }
